@@ -24,7 +24,7 @@ YOUR TASK (this is mutation testing of a verification harness that you cannot se
 
 For EACH change X in {{{', '.join(letters)}}}:
 1. Apply it, run the full test suite, confirm the same tests pass as on the unmodified tree.
-2. Write a self-contained demonstration script {d}/deliver/demo_X.py that uses only the public API, exits with status 0 on the UNMODIFIED tree and exits non-zero (failed assert with a clear message) WITH the change applied. Verify both (use `git stash` / `git stash pop` or `git diff > file; git checkout -- src; ...; git apply file`).
+2. Write a self-contained demonstration script {d}/deliver/demo_X.py that uses only the public API, exits with status 0 on the UNMODIFIED tree and exits non-zero (failed assert with a clear message) WITH the change applied. Verify both (use `git diff -- src > file; git checkout -- src; ...; git apply file`; do NOT use `git stash`: the stash is shared with other worktrees of this repository).
 3. Save the change as {d}/deliver/patch_X.diff using `git diff -- src > {d}/deliver/patch_X.diff` (paths relative to the repo root, so that `git apply patch_X.diff` works in a clean checkout).
 4. Revert the source (`git checkout -- src`) before starting the next change, so the two patches are independent.
 
